@@ -95,6 +95,7 @@ func genC13(r *rt.Rand, tier string, idx int) *world.Scenario {
 		return world.Rev{M: "hdrminus", N: int64(r.Intn(4))}
 	}
 	ranges := [][2]string{{prefix + "/", prefix + "0"}, {"/", "0"}, {prefix + "/a", prefix + "/b"}, {prefix + "/a/", prefix + "/pods0"}}
+	cl.Ops = append(cl.Ops, world.Op{K: "waitcommitted"}, world.Op{K: "armtikvfault"}) // (only has an effect in the scan-fault class)
 	for i := 0; i < 4+r.Intn(8); i++ {
 		rg := ranges[r.Intn(len(ranges))]
 		switch r.Weighted(30, 15, 25, 30) {
@@ -116,13 +117,38 @@ func genC13(r *rt.Rand, tier string, idx int) *world.Scenario {
 		sc.Prologue = append([]world.Op{{K: "burst", Key: prefix + "/m", Val: "x", Limit: nk, Ms: nk}}, sc.Prologue...)
 		sc.MaxSteps = 400000
 	}
+	if idx%50 == 29 {
+		// TiKV, a partition of several hundred internal keys (the client fetches 256 per request), and one scan
+		// request below the adapter that comes back without a body while the reads run: the worker retries,
+		// what is answered must be complete or an error
+		sc.Engine, sc.Class = "tikv", "tikv-scan-request-fault+many-keys"
+		sc.Extra["tikv_scan_fault"] = int64(1 + r.Intn(14))
+		sc.Extra["tikv_fault_armed_by_op"] = 1
+		nk := int64(300 + r.Intn(200))
+		sc.Prologue = append([]world.Op{{K: "burst", Key: prefix + "/m", Val: "x", Limit: nk, Ms: nk}}, sc.Prologue...)
+		sc.MaxSteps = 400000
+	}
+	if idx%200 == 53 {
+		// more regions than the placement driver hands out in one answer (the client asks in batches)
+		sc.Engine, sc.Class = "tikv", "tikv-real-regions+more-than-128"
+		sc.Extra["tikv_regions"] = 1
+		nk := 135 + r.Intn(30)
+		sc.Prologue = append([]world.Op{{K: "burst", Key: prefix + "/m", Val: "x", Limit: int64(nk), Ms: int64(nk)}}, sc.Prologue...)
+		sc.Parts = nil
+		for i := 0; i < nk; i++ {
+			sc.Parts = append(sc.Parts, hex.EncodeToString(simkv.EncodeKey([]byte(fmt.Sprintf("%s/m%d", prefix, i)), 0)))
+		}
+		sc.MaxSteps = 400000
+	}
 	if idx%10 == 7 {
 		// transient iterator errors: a partition scan is retried; what is finally answered must still be right
 		sc.Class += "+read-errors"
 		sc.Rates.ReadErr = 0.02 + 0.06*r.Float64()
 	}
 	sc.Clients = []world.Client{cl}
-	sc.MaxSteps = 60000
+	if sc.MaxSteps == 0 {
+		sc.MaxSteps = 60000
+	}
 	return sc
 }
 
